@@ -81,3 +81,65 @@ Theorem C12_oracle_sound : forall t svcs out, order_ok_b t svcs out = true ->
          (map (fun r => match find_root svcs r with Some s => wlook t (uuid s) | None => ""%string end) out).
 Proof. exact order_ok_b_sound. Qed.
 Print Assumptions C12_oracle_sound.
+
+(* ---- service discovery (model/KC_discover.v, shared with C11): probe order of a client whose roots come from a
+   keep_services list.  dsvc = one list item (uuid, host, port, ssl, type, read_only); load_roots l = the maps
+   loadKeepServers installs (r_local, r_writable, r_gateway); kept l = items surviving "skip duplicate URLs";
+   load_all st ls = a client given the lists ls one after the other; svcs_of = such a map as a service list. ---- *)
+From Coq Require Import NArith.
+From AV Require Import model.KC_discover proofs.KC_discover_proofs proofs.C12_disc.
+
+(* every listed service — read-only or not, of any type — is a gateway root under its uuid *)
+Theorem C12_gateway_has_every_listed_service : forall l, NoDup (map d_uuid l) ->
+  forall s, In s (kept l) -> mget (r_gateway (load_roots l)) (d_uuid s) = Some (d_url s).
+Proof. exact gateway_has_every_listed. Qed.
+Print Assumptions C12_gateway_has_every_listed_service.
+
+(* ... so a +K@<uuid> hint naming a listed service is usable: it contributes exactly that service's URL *)
+Theorem C12_hint_to_listed_service : forall l s,
+  NoDup (map d_uuid l) -> In s (kept l) -> String.length (d_uuid s) = 27 ->
+  hint_root (svcs_of (r_gateway (load_roots l))) ("K@" ++ d_uuid s)%string = [d_url s].
+Proof. exact hint_to_listed_service. Qed.
+Print Assumptions C12_hint_to_listed_service.
+
+(* ... and the reader tries it before the rendezvous order of the local roots *)
+Theorem C12_listed_hint_tried_before_rendezvous : forall l loc s,
+  NoDup (map d_uuid l) -> In s (kept l) -> String.length (d_uuid s) = 27 ->
+  In ("K@" ++ d_uuid s)%string (split_plus loc) ->
+  exists pre post,
+    get_sorted_roots (svcs_of (r_gateway (load_roots l))) (svcs_of (r_local (load_roots l))) loc =
+    (pre ++ d_url s :: post ++ sorted_roots (take 32 loc) (svcs_of (r_local (load_roots l))))%list.
+Proof. exact listed_hint_tried_before_rendezvous. Qed.
+Print Assumptions C12_listed_hint_tried_before_rendezvous.
+
+(* readers probe all listed services, writers those that are not read-only *)
+Theorem C12_discovered_local_and_writable : forall l, NoDup (map d_uuid l) ->
+  svcs_of (r_local (load_roots l)) = map (fun s => {| uuid := d_uuid s; root := d_url s |}) (kept l) /\
+  svcs_of (r_writable (load_roots l)) =
+    map (fun s => {| uuid := d_uuid s; root := d_url s |}) (filter (fun s => negb (d_ro s)) (kept l)).
+Proof. exact discovered_local_and_writable. Qed.
+Print Assumptions C12_discovered_local_and_writable.
+
+(* the maps in force are those of the LAST list the client was given *)
+Theorem C12_load_history_irrelevant : forall st ls l, k_roots (load_all st (ls ++ [l])) = load_roots l.
+Proof. exact load_history_irrelevant. Qed.
+Print Assumptions C12_load_history_irrelevant.
+
+(* the evaluator's discovery clause (disc_spec_b, part of spec_b) is the shared roots specification of the last
+   list, and the model's maps pass it after any history of lists *)
+Theorem C12_disc_spec_b_reflects : forall c : case, c_lists c <> [] ->
+  (disc_spec_b c = true <->
+   (NoDup (map d_uuid (current_list (c_lists c))) ->
+    (forall p, In p (pairs_of (c_local c)) <-> exists s, In s (kept (current_list (c_lists c))) /\ p = root_entry s) /\
+    (forall p, In p (pairs_of (mask (c_writable c) (c_local c))) <->
+               exists s, In s (kept (current_list (c_lists c))) /\ d_ro s = false /\ p = root_entry s) /\
+    (forall s, In s (kept (current_list (c_lists c))) -> In (root_entry s) (pairs_of (c_gw c))) /\
+    (forall p, In p (pairs_of (c_gw c)) -> exists s, In s (current_list (c_lists c)) /\ p = root_entry s))).
+Proof. exact disc_spec_b_written_out. Qed.
+Print Assumptions C12_disc_spec_b_reflects.
+
+Theorem C12_discovery_meets_roots_spec : forall st ls, ls <> [] ->
+  let m := k_roots (load_all st ls) in
+  roots_spec_b (current_list ls) (r_local m) (r_writable m) (r_gateway m) = true.
+Proof. exact model_passes_disc_spec. Qed.
+Print Assumptions C12_discovery_meets_roots_spec.
